@@ -33,7 +33,7 @@ def main():
             res["demo_mutated_exit"] = mut.returncode
             res["demo_mutated_tail"] = (mut.stdout + mut.stderr)[-300:]
             if not skip:
-                t = sh(f"cd {wt} && PYTHONPATH={wt} /venv/bin/python -m pytest -q -p no:cacheprovider --timeout=900 -n 8 tests 2>&1 | tail -2")
+                t = sh(f"cd {wt} && OMP_NUM_THREADS=2 PYTHONPATH={wt} /venv/bin/python -m pytest -q -p no:cacheprovider --timeout=900 -n 8 tests 2>&1 | tail -2")
                 res["tests"] = t.stdout.strip()
     finally:
         sh(f"git -C {REPO} worktree remove --force {wt}")
